@@ -414,4 +414,48 @@ example : renderUrls none "eq:1" [⟨"", none, [none, some "sec-a.html", some "i
   have h0 : ("".endsWith "/") = false := by decide
   simp [renderUrls, nodeUrl, h0, enclosingFile]
 
+/-! ### which files another run restores (`Compile.parse`) -/
+
+/-- the loop over the working directory and the paux directories never fails, whatever the files hold -/
+theorem parse_total (c : Codec β) (r job : String) (files : List (String × File β)) (L : Labels) :
+    ∃ L', parseRestores c r job files L = .ok L' := ⟨_, parseRestores_eq c r job files L⟩
+
+/-- **every other document's file is restored**: for every file met by the loop whose name is not the job's own —
+    wherever it stands, whatever other files (also files of the same name in other directories) come before or after —
+    every entry of its section for the renderer that restores cleanly is a label of the run -/
+theorem parse_restores_every_other_file (c : Codec β) (r job : String) (files : List (String × File β)) (L : Labels)
+    (name : String) (f : File β) (hmem : (name, f) ∈ files) (hne : name ≠ job)
+    (data : List (Key × Val)) (hsec : oldSection c r f = some (.dict data))
+    (k : Key) (v : Val) (n : Node) (hk : aget k (toDict data) = some v) (hv : restoreEntry v = .ok n) :
+    ∃ L', parseRestores c r job files L = .ok L' ∧ k ∈ keys L' := by
+  refine ⟨_, parseRestores_eq c r job files L, ?_⟩
+  induction files generalizing L with
+  | nil => simp at hmem
+  | cons hd t ih =>
+    obtain ⟨name1, f1⟩ := hd
+    simp only [parseFold]
+    rcases List.mem_cons.1 hmem with e | hm
+    · cases e
+      rw [if_neg hne]
+      apply parseFold_mono
+      rw [hsec]; simp only [restoreFrom]
+      exact (aget_isSome_iff k _).1 (by rw [restoreLoop_get _ _ (toDict_nodup _) k v n hk hv]; rfl)
+    · split
+      · exact ih L hm
+      · exact ih _ hm
+
+/-- the job's own file is never read and nothing is invented: a label of the run was known before or is an entry of
+    the section of a file that is not the job's own -/
+theorem parse_invents_nothing (c : Codec β) (r job : String) (files : List (String × File β)) (L : Labels) :
+    ∃ L', parseRestores c r job files L = .ok L' ∧ ∀ k ∈ keys L', k ∈ keys L ∨
+      ∃ nf ∈ files, nf.1 ≠ job ∧ ∃ data, oldSection c r nf.2 = some (.dict data) ∧ k ∈ keys (toDict data) :=
+  ⟨_, parseRestores_eq c r job files L, fun k hk => parseFold_origin c r job files L k hk⟩
+
+/-- non-vacuity: two different `main.paux` in two directories and the job's own file -/
+example : parseRestores (β := Option Val) ⟨some, id⟩ "HTML5" "report"
+    [("report", .bytes (some (.dict [(.str "HTML5", .dict [(.str "own", .dict [])])]))),
+     ("main", .bytes (some (.dict [(.str "HTML5", .dict [(.str "a", .dict [(.str "ref", .str "2")])])]))),
+     ("main", .bytes (some (.dict [(.str "HTML5", .dict [(.str "b", .dict [(.str "ref", .str "3")])])])))] []
+    = .ok [(.str "a", [("ref", .str "2")]), (.str "b", [("ref", .str "3")])] := by rfl
+
 end PlasVerif.Properties.C20
